@@ -54,6 +54,20 @@ def run_file(path):
             return 1 if bad else 0
         finally:
             env.close()
+    if isinstance(r.get('rerun'), dict):
+        from engine.replay import battery_run
+        name = r['rerun'].get('battery')
+        res, err = battery_run.run(name)
+        if err:
+            print('battery error:', err)
+            return 3
+        hits = {k: v for k, v in res.items() if k in (
+            r['rerun'].get('oracles') or [])}
+        print('battery   :', battery_run.BATTERIES[name][0],
+              '(overlay build of the current tree)')
+        print('failures  :', json.dumps(hits, default=str)[:3000])
+        print('REPRODUCED' if hits else 'not reproduced')
+        return 1 if hits else 0
     if r.get('battery'):
         from engine import replay_py
         b = replay_py.Battery()
